@@ -179,6 +179,14 @@ func (s *Super) runPhase(ph Phase) []Phase {
 	if ph.Race {
 		bin = filepath.Join(binDir, "verif-race")
 	}
+	if ph.Bin != "" {
+		bin = filepath.Join(binDir, ph.Bin)
+		if _, err := os.Stat(bin); err != nil {
+			s.merged.Notes["skipped/"+ph.Name] = "optional binary " + ph.Bin + " not available"
+			s.phasesRun--
+			return nil
+		}
+	}
 	cmd := exec.Command(bin, "--child", s.Check.ID, s.Tier, ph.Name, out)
 	cmd.Env = append(os.Environ(),
 		"VERIF_SEED="+strconv.FormatInt(s.Seed, 10),
